@@ -10,7 +10,7 @@ import yaml
 def use_string(u, file_abs):
     s = ''
     if u.get('file'):
-        s = u.get('path_text') or file_abs(u['file'])
+        s = ('{CFGROOT}/' + u['file']) if u.get('via_placeholder') else file_abs(u['file'])
     if u.get('part'):
         s += '#' + u['part']
     if u.get('as'):
